@@ -121,6 +121,13 @@ def rule_slice_translation(ctx: Ctx) -> RuleResult:
         tn = nodes_where(cfg, lambda x: x is trims[0])
         if not adj or not all(cfg.dominated(n, adj) for n in tn):
             rr.add(finding("PAIR", rn, trims[0], "the canvas is trimmed before _adjust_trim_top() clamped the position", construct="trim before clamp"))
+        # every return of render() - also the one for content that fits - comes after _adjust_trim_top(): the
+        # position reported afterwards is the first row shown (0 when nothing is scrolled out)
+        rets = [n for n in cfg.nodes if n.kind == "return"]
+        rr.inst("position resolved before every return", True, {"returns": len(rets)})
+        for r in rets:
+            if not adj or not cfg.dominated(r, adj):
+                rr.add(finding("PAIR", rn, r.stmt, f"`{norm(r.stmt, 40)}` returns a rendering without _adjust_trim_top() having resolved the position: get_scrollpos() keeps a stale value (e.g. 15 after the content shrank to fit and row 0 is shown)", construct=f"return without position reset: {norm(r.stmt, 40)}"))
     me = p.func(f"{S}.mouse_event")
     calls = [c for c in me.own_nodes() if isinstance(c, ast.Call) and isinstance(c.func, ast.Attribute) and c.func.attr == "mouse_event" and len(c.args) >= 5]
     rr.inst("mouse row translation", True)
@@ -181,6 +188,30 @@ def rule_scrollbar_parts(ctx: Ctx) -> RuleResult:
     rr.inst("bottom remainder", True, {"roles": R})
     if len(b) != 1 or linear(b[0][1]) != {R["maxrow"]: 1, R["thumb"]: -1, R["top"]: -1}:
         rr.add(finding("PAIR", rn, b[0][0].stmt if b else rn.node, f"the bottom part is `{ast.unparse(b[0][1]) if b else '?'}`, not the remainder maxrow - thumb - top: the three parts do not sum to the view height", construct="bottom_height not the remainder"))
+    # parts are non-negative: the top part is a share of the room (maxrow - thumb) or a constant stored only
+    # when the room is tested to be there
+    cfg = du.cfg
+    for dn, v, how in du.defs.get(R["top"], []):
+        if not isinstance(v, ast.AST):
+            continue
+        rr.inst(f"top part store {norm(dn.stmt, 40)}", True)
+        if isinstance(v, ast.Constant) and isinstance(v.value, int) and v.value > 0:
+            room_tests = []
+            for t in cfg.nodes:
+                if t.kind != "test":
+                    continue
+                for c in ast.walk(t.ast):
+                    if isinstance(c, ast.Compare) and len(c.ops) == 1:
+                        L = linear(ast.BinOp(left=c.left, op=ast.Sub(), right=c.comparators[0]))
+                        if L is None:
+                            continue
+                        core = {k: x for k, x in L.items() if k != ""}
+                        if (core == {R["maxrow"]: 1, R["thumb"]: -1} and isinstance(c.ops[0], (ast.Gt, ast.GtE))) or (core == {R["maxrow"]: -1, R["thumb"]: 1} and isinstance(c.ops[0], (ast.Lt, ast.LtE))):
+                            room_tests.append(t)
+            from ..rules.exc import ExcEngine
+
+            if not any(dn not in ExcEngine._reach_without_edge(cfg, t, "T") for t in room_tests):
+                rr.add(finding("PAIR", rn, dn.stmt, f"`{norm(dn.stmt, 40)}` gives the top part a fixed height without testing that the thumb leaves room (maxrow > thumb height): when the thumb fills the bar (a one-row view) the bottom part becomes negative and the bar is taller than the view", construct="top part constant without room test"))
     w = single(R["sb_width"])
     rr.inst("bar width remainder", True)
     from ..rules.geom import fold_subscripts
@@ -320,6 +351,9 @@ MUTANTS = [
     Mut("thumb-from-full-width", _F, "ScrollBar.render", "ow_rows_max = ow_base.rows_max(ow_size, focus)", "ow_rows_max = ow_base.rows_max(size, focus)", "GEOM|widget.scrollable.ScrollBar.render"),
     Mut("set-scrollpos-no-invalidate", _F, "Scrollable.set_scrollpos", "        self._trim_top = int(position)\n        self._invalidate()", "        self._trim_top = int(position)", "INV|widget.scrollable.Scrollable.set_scrollpos"),
     Mut("cursor-bound-closed", _F, "Scrollable.render", "if cursrow >= maxrow or cursrow < 0:", "if cursrow > maxrow or cursrow < 0:", "POSBOUND|"),
+    Mut("fits-return-without-reset", _F, "Scrollable.render", "            self._adjust_trim_top(canv, size)\n            return canv", "            return canv", "PAIR|widget.scrollable.Scrollable.render|return without position reset"),
+    Mut("top-nudge-without-room", _F, "ScrollBar.render", "if top_height == 0 and top_weight > 0 and maxrow > thumb_height:", "if top_height == 0 and top_weight > 0:", "PAIR|widget.scrollable.ScrollBar.render|top part constant"),
+    Mut("twin-top-nudge-room-reordered", _F, "ScrollBar.render", "if top_height == 0 and top_weight > 0 and maxrow > thumb_height:", "if thumb_height < maxrow and top_height == 0 and top_weight > 0:", twin=True),
     Mut("twin-ensure-bounds-reordered", _F, "Scrollable._adjust_trim_top", "return max(0, min(canv_rows - maxrow, new_trim_top))", "return max(0, min(new_trim_top, canv_rows - maxrow))", twin=True),
     Mut("twin-bottom-reordered", _F, "ScrollBar.render", "bottom_height = maxrow - thumb_height - top_height", "bottom_height = maxrow - top_height - thumb_height", twin=True),
     Mut("twin-mouse-row-direct", _F, "Scrollable.mouse_event", "            row += self._trim_top\n            return ow.mouse_event(ow_size, event, button, col, row, focus)", "            return ow.mouse_event(ow_size, event, button, col, row + self._trim_top, focus)", twin=True),
